@@ -152,8 +152,13 @@ def mk_vfield(base, variant, name):
             return ("mapped", f, inner)
     if base[0] == "trybranch":
         if variant == "Continue":
+            # `opt?` on an Option (e.g. `res.ok()?`): the continue value is the Some payload
+            if base[1][0] == "resok":
+                return mk_vfield(base[1], "Some", name)
             return mk_vfield(base[1], "Ok", name)
         if variant == "Break":
+            if base[1][0] == "resok":
+                return ("agg", "adt:std::option::Option::None", ())
             return ("agg", "adt:std::result::Result::Err", (mk_vfield(base[1], "Err", 0),))
     if base[0] == "mapok":
         if variant in ("Ok", "Some"):
